@@ -4,6 +4,7 @@ import (
 	"encoding/json"
 	"fmt"
 	"os"
+	"strings"
 
 	lua "github.com/yuin/gopher-lua"
 	"verifh/lib"
@@ -353,11 +354,39 @@ func replay(w *lib.Writer, path string) {
 	if err != nil {
 		panic(err)
 	}
-	var rp struct {
-		Input in `json:"input"`
+	var peek struct {
+		Input struct {
+			Fn string `json:"fn"`
+		} `json:"input"`
 	}
-	if err := json.Unmarshal(b, &rp); err != nil {
+	if err := json.Unmarshal(b, &peek); err != nil {
 		panic(err)
 	}
-	runCase(w, rp.Input)
+	switch {
+	case peek.Input.Fn == "format":
+		var rp struct {
+			Input fmtIn `json:"input"`
+		}
+		if err := json.Unmarshal(b, &rp); err != nil {
+			panic(err)
+		}
+		runFormat(w, rp.Input)
+	case strings.HasPrefix(peek.Input.Fn, "math."):
+		var rp struct {
+			Input mathIn `json:"input"`
+		}
+		if err := json.Unmarshal(b, &rp); err != nil {
+			panic(err)
+		}
+		callMath("randomseed", lua.LNumber(20260925))
+		runMath(w, rp.Input)
+	default:
+		var rp struct {
+			Input in `json:"input"`
+		}
+		if err := json.Unmarshal(b, &rp); err != nil {
+			panic(err)
+		}
+		runCase(w, rp.Input)
+	}
 }
